@@ -69,6 +69,7 @@ class Unit:
     no_nondet_static: bool = False
     quick: bool = True                # part of the quick tier
     replace_calls: list = field(default_factory=list)  # [(callee, stub)] mechanical call substitution (goto-instrument --replace-calls): contract stubs in mode H
+    fallback_defines: list = field(default_factory=lambda: ["VERIF_NO_TABLE"])  # retried when the harness no longer compiles (e.g. a static the contracts mention was removed)
     minisat_cross: bool = False       # thorough tier: repeat with the default MiniSat back end
 
 
@@ -228,6 +229,13 @@ def _run_unit(u: Unit, char: str, workroot: str, canary=False, keep=False, repo=
         cc.append(os.path.join(wd, s))
     cc += ["-o", a_gb]
     rc, so, se, to = sh(cc, cwd=wd, timeout=300)
+    if (rc != 0 or not os.path.exists(a_gb)) and u.fallback_defines:
+        # e.g. the doubling table was removed by a refactoring: contracts that only mention it as a
+        # precondition are retried without that precondition
+        cc2 = cc[:-2] + ["-D" + d for d in u.fallback_defines] + cc[-2:]
+        rc, so, se, to = sh(cc2, cwd=wd, timeout=300)
+        if rc == 0:
+            cc = cc2
     if rc != 0 or not os.path.exists(a_gb):
         res.reason = "goto-cc failed: " + (se or so)[-1500:]
         res.log = se
